@@ -206,7 +206,7 @@ theorem scaleByCofactor_correct {A : Aff F} (hA : Aff.OnCurve b A) {n cof : ℕ}
   Aff.scaleByCofactor_spec hA hcof
 
 /-- … hence lands in the order-`r` subgroup, PROVIDED `cof * r` kills the group of the curve.
-    The group order is out of reach of this development and stays an explicit hypothesis. -/
+    The group order is an explicit hypothesis HERE; it is PROVED in PP.Props.CurveOrder, which also instantiates the hypothesis-free versions. -/
 theorem scaleByCofactor_inSub {A : Aff F} (hA : Aff.OnCurve b A) {n cof : ℕ}
     (hcof : cof < 2 ^ (64 * n)) (hord : ∀ g : (W b).Point, (cof * Gen.r) • g = 0) :
     Jac.InSub b (A.mulBits (bitsMSB (limbsOf n cof))) :=
